@@ -167,8 +167,9 @@ func SelfTestNaCl() error {
 	return nil
 }
 
-// SelfTestXTS checks IEEE 1619-2007 Annex B vectors 1-3 (XTS-AES-128) and the
-// first blocks of vector 10 (XTS-AES-256).
+// SelfTestXTS checks IEEE 1619-2007 Annex B vectors 1-3 (XTS-AES-128) and two
+// algebraic identities of the GF(2^128) helper.  (The AES-256 variant differs
+// only in the crypto/aes key size.)
 func SelfTestXTS() error {
 	type v struct {
 		key    string
